@@ -34,4 +34,38 @@ CHECKS["C20"] = {
     "explanation": "code construction theorems + bit I/O correspondence",
 }
 
+ZW = "contract ZSpec: every chunk Go's compress/flate.Writer emits between Reset and Flush is, in any byte-aligned DEFLATE context, a run of complete non-final blocks that appends exactly the chunk's data (ZChunkOK); its output on each call is recorded from the real library through the verif trace hook and replayed to the model, so the model's sink is compared byte for byte"
+CHECKS["C06"] = {
+    "families": ["xw"],
+    "trusted_base": [ZW, "Flate.Spec is my reading of RFC 1951, validated against compress/flate, zlib and dsnet flate on ~70k inputs per run (family fl)"],
+    "assumptions": [ZW],
+    "level_text": "full relative to the compressor contract: Lean theorem C06_plain_deflate - for every accepted configuration, every Write/Flush(any mode) schedule and a successful Close, the RFC 1951 specification decodes the emitted bytes to exactly the accepted data, consuming every bit (final bit only in the last block). Built on the proved meta-block transparency (C16_silent_in_deflate) and a structural invariant of the writer over all op sequences. The contract is non-vacuous (C06_contract_witness).",
+    "level_note": "Trusted: Lean kernel; hand-written writer model tied to /repo by byte-exact correspondence of every call result, counter and the whole sink on ~18k op sequences per quick run (exhaustive depth-4 alphabets, random schedules, sink faults); compress/flate is a contract, not verified; the oracle decodes every emitted stream with compress/flate and this repository's flate.Reader, and the Lean specification decodes it too.",
+    "explanation": "C06 theorem + writer correspondence + 3 decoders",
+}
+CHECKS["C05"] = {
+    "families": ["xw", "xo"],
+    "trusted_base": [ZW, ZR, "hash/crc32 is modelled by a bitwise CRC-32 (theorems hold for any 32-bit checksum)"],
+    "assumptions": [ZW, ZR, "sizes below 2^63 (int64)"],
+    "level_text": "partial, main parts full: Lean theorems C05_config_refused (NewWriter refuses exactly the invalid configurations), C05_index_roundtrip (for every configuration and Write/Flush schedule, Reader.Reset's parsing of the emitted bytes - footer found by backward search, index chain walked back to offset 0, CRC/totals/sizes checked - reconstructs exactly the writer's records), C05_data_accounted; with C07_readseeker (reading any well-formed layout returns the plaintext) and C06_plain_deflate. Not yet proved: that the reconstructed layout satisfies C07's WellFormed hypothesis for the inflater (the glue between C05_index_roundtrip and C07), and split-independence of the emitted bytes; both are decided by the oracle sweep (real Writer -> real Reader round trip, re-split writes must give identical bytes).",
+    "level_note": "Trusted: Lean kernel; writer, open and reader models tied to /repo by correspondence (families xw, xo, xr); compress/flate both ways is a contract.",
+    "explanation": "index round trip theorem + round-trip oracle",
+}
+CHECKS["C13"] = {
+    "families": ["xw", "life"],
+    "trusted_base": [ZW + "; plus ZErrSurfaced/ZErrNotClosed: the compressor returns an error (never xflate's private closed error) when the sink refused its bytes"],
+    "assumptions": ["bzip2.Writer and meta.Writer on their own are not modelled at the API level: decided by the oracle sweep (family life)"],
+    "level_text": "partial: full for xflate.Writer (incl. the meta encoder's block writes) - Lean theorems C13_sink_failure_latched / C13_no_false_success (once the sink refused bytes an error is latched that is not 'closed', for every history: Close never returns nil), C13_keeps_failing, C13_errors_latched, C13_sink_append_only, C13_counters, C13_input_counter, and C13_bitwriter_exact for prefix.Writer without faults. bzip2.Writer and meta.Writer: oracle sweep over random op sequences with hard/short, once/forever faults (which found and led to the repair of bzip2.Writer.Close reporting success after a failed Close, D9).",
+    "level_note": "Trusted: Lean kernel; correspondence of the xflate.Writer model incl. ~1.3k fault scenarios per quick run; the fault model is a sink that fails at a byte position (hard or short write), once or forever.",
+    "explanation": "latch invariant theorems + fault-injection oracle",
+}
+CHECKS["C18"] = {
+    "families": ["life", "xw", "xr"],
+    "trusted_base": ["API-level models exist for xflate.Writer and xflate.Reader only; for the other six types the lifecycle is decided by the exhaustive call-sequence sweep; guard shapes of all types are regenerated facts"],
+    "assumptions": [],
+    "level_text": "partial: Lean theorems C18_writer_closed / C18_writer_closed_forever (after a successful Close every Write/Flush is refused with the closed error, Close is idempotent, the state and hence the sink never change again, for every continuation), C18_close_latches, C18_reader_closed (xflate.Reader), C18_guards_in_source (regenerated from /repo). No-panic and closed-means-closed for flate/brotli/bzip2/meta Readers and bzip2/meta Writers: exhaustive depth-3 (quick) / depth-4 (thorough) call sequences under recover.",
+    "level_note": "Trusted: Lean kernel; regenerated guard facts; the sweep is sampling for the six unmodelled types.",
+    "explanation": "closed-state theorems + exhaustive short call sequences",
+}
+
 NOT_APPLICABLE = {}
